@@ -335,7 +335,9 @@ def git_colorize_combined(lines, nparents, reset='m'):
 # ---------------------------------------------------------------- mutators
 
 BIG_NUMBERS = ['0', '4294967295', '4294967296', '18446744073709551615', '18446744073709551616',
-               '99999999999999999999999999999', '2147483648']
+               '99999999999999999999999999999', '2147483648',
+               # around the largest signed 64-bit number (counters kept in isize)
+               '9223372036854775807', '9223372036854775808', '9223372036854775809', '9223372036854775810']
 ESC_FRAGMENTS = ['\x1b', '\x1b[', '\x1b[m', '\x1b[0m', '\x1b[31m', '\x1b[38;5;', '\x1b[38;2;1;2;3m', '\x1b[?25l',
                  '\x1b[1;2;3;4;5;6;7;8;9;10;11;12;13;14;15;16;17;18m', '\x1b]8;;http://x\x1b\\', '\x1b]8;;\x1b\\',
                  '\x1b]0;title\x07', '\x1b[ q', '\x1b[>0c', '\x1b(B', '\x1bM', '\x9b31m', '\x1b[K', '\x1b[0K',
